@@ -14,7 +14,9 @@ ID = 'C32'
 TECHNIQUE = ('decision-table extraction: the AST of each (small, table-like) decision function of the generator is evaluated by a path-enumerating abstract '
              'evaluator over its COMPLETE finite domain (return kind x exception_check x exception_value set x GIL state x result variable given), emitted C text is kept '
              'as a template and split at its top-level && / || operators; the resulting table is compared with the specification table of the exception '
-             'declarations; clang is used as a parser for the two C helpers (typestate of the error indicator / GIL bracket); emitted-call arity (I5) for the helpers involved')
+             'declarations; clang is used as a parser for the two C helpers (typestate of the error indicator / GIL bracket); emitted-call arity (I5) for the helpers involved; '
+             'C32-TYPED: the emitted sentinel comparison (casts resolved through the MRO of the type class) is evaluated with C conversion semantics over the complete '
+             'lattice of integer ranks x signedness and float/double x representable / non-representable sentinels')
 DECIDES = ('C32-CALL: for all 72 points of (object | memoryview | other return) x exception_check in {False, True, "+"} x exception_value {unset, set} x GIL {held, released} x '
            'result variable {given, not given}, the statement SimpleCallNode emits for a C function call tests exactly: object -> !result; memoryview -> the slice error '
            'condition; except value -> sentinel test; except? value -> sentinel && PyErr_Occurred(); except * -> PyErr_Occurred(); noexcept -> nothing; except + -> the C++ '
@@ -29,8 +31,13 @@ DECIDES = ('C32-CALL: for all 72 points of (object | memoryview | other return) 
            'an error value exists (error_value() or a memoryview return) or the caller checks, and the error value is assigned to the return variable when one exists; '
            'CFuncDefNode.error_value / caller_will_check_exceptions read the exception_value / exception_check of the same CFuncType the call side reads ("0"/NULL for object returns). '
            'C32-CHELP: __Pyx_ErrOccurredWithGIL brackets PyErr_Occurred() with PyGILState_Ensure/Release and returns its truth; __Pyx_WriteUnraisable leaves the error indicator clear '
-           'on every path and takes/releases the GIL exactly when nogil. C32-I5: arity of the emitted helper calls.')
-NOT_DECIDED = ('that the body of a function really jumps to the error label on every raise; which sentinel values the declaration analysis accepts for a return type; '
+           'on every path and takes/releases the GIL exactly when nogil. C32-I5: arity of the emitted helper calls. '
+           'C32-TYPED: for CType.error_condition, CTypedefType.error_condition (external typedef) and ExceptionValue.exception_test_code, for every numeric type class '
+           '(CIntType, CFloatType) x C type (unsigned/signed char, short, int, long, long long; float, double) x sentinel (-1, 0, 1, -2; -1.0, 0.1, 0.0, NaN where the '
+           'NaN-aware form is selected): the emitted comparison, with cast_code / sign_and_name resolved through the class and the NaN macro expanded from Exceptions.c, '
+           'is TRUE for the value the callee stores ((T)v, conversion by assignment) and FALSE for every other probed value of T under C11 integer promotion / usual '
+           'arithmetic conversions (an uncast -1 never equals a promoted unsigned char 255; a double 0.1 never equals a float 0.1f).')
+NOT_DECIDED = ('that the body of a function really jumps to the error label on every raise; which sentinel values the declaration analysis accepts for a return type (and sentinels for enum / pointer / ctuple / complex return types in C32-TYPED); '
                'propagation through cpdef wrappers and function pointers; that the GIL really is held where funcstate.gil_owned says so (assure_gil bookkeeping of the error exit); '
                'the run-time behaviour of the compiled program (no C is compiled or run).')
 ASSUMPTIONS = ['error_value() results and ExceptionValue objects are never None/empty when an exception value is declared',
@@ -69,8 +76,17 @@ MUTATIONS = [
     ('Cython/Utility/Exceptions.c', '__Pyx_ErrOccurredWithGIL: `err = !!PyErr_Occurred()` -> `!PyErr_Occurred()`', 'C32-CHELP chelp:__Pyx_ErrOccurredWithGIL'),
     ('Cython/Compiler/ExprNodes.py', 'generate_cfunction_call: `if exc_check:` -> `if exc_check and exc_val is None:` (except? loses PyErr_Occurred)', 'C32-CALL call:other/check=True/value=set'),
     ('Cython/Compiler/Nodes.py', 'CFuncDefNode.error_value: `return "0"` -> `return "-1"` for object returns', 'C32-DEF def:CFuncDefNode.error_value'),
+    ('Cython/Compiler/PyrexTypes.py', 'seed C32a: exception_test_code drops the cast for plain C numbers (`{result_cname} == ({self})`)', 'C32-TYPED typed:ExceptionValue.exception_test_code(CIntType) + (CFloatType)'),
+    ('Cython/Compiler/PyrexTypes.py', 'CType.error_condition: `(%s == (%s)%s)` -> `(%s == %s)` without sign_and_name()', 'C32-TYPED typed:CType.error_condition(CIntType)'),
+    ('Cython/Compiler/PyrexTypes.py', 'CTypedefType.error_condition: self.cast_code(self.exception_value) -> self.exception_value', 'C32-TYPED typed:CTypedefType.error_condition'),
+    ('Cython/Compiler/PyrexTypes.py', 'BaseType.cast_code: `"((%s)%s)"` -> `"(%s)" % (expr_code,)` (the cast disappears for every user)', 'C32-TYPED all three generators'),
+    ('Cython/Compiler/PyrexTypes.py', 'exception_test_code: cast moved to the result: `{self.type.cast_code(result_cname)} == {self}`', 'C32-TYPED typed:ExceptionValue.exception_test_code(CIntType)'),
+    ('Cython/Compiler/PyrexTypes.py', 'exception_test_code: `(char){result_cname} == (char){self}` (narrowing on both sides: int 255 forges an exception)', 'C32-TYPED (no-forgery direction)'),
 ]
 SILENT_EDITS = [     # behaviour-preserving edits tried on the scratch copy: all 12 stayed silent (exit 0)
+    'C32-TYPED: exception_test_code with operands swapped and parenthesised; with `({self.type.empty_declaration_code()}){self}` instead of cast_code; with BOTH sides '
+    'passed through self.type.cast_code; if/else turned into a fall-through `"%s == %s" % (result_cname, cmp_val)`; CType.error_condition using self.cast_code(...) '
+    'instead of the hand-written `(%s)%s`',
     'generate_cfunction_call: rename locals exc_checks/exc_val/exc_check',
     'generate_cfunction_call: build the condition with an explicit loop-free `cond = a + " && " + b` instead of join',
     'generate_cfunction_call: swap the order of the is_memoryviewslice / is_pyobject branches',
@@ -821,7 +837,9 @@ def rule_cond(ctx):
                 continue
             text, vals = _numbered(p.ret)
             sh = _eq_shape(text, vals)
-            is_res = lambda v: isinstance(v, Obj) and v.path == res_arg
+            # the result itself, or the result passed through a cast of the type (value-level correctness of casts is C32-TYPED's business)
+            is_res = lambda v: (isinstance(v, Obj) and v.path == res_arg) or (isinstance(v, Call) and v.name == 'cast_code' and len(v.args) == 1
+                                                                             and isinstance(v.args[0], Obj) and v.args[0].path == res_arg)
             is_sent = lambda v: _contains(v, lambda x: isinstance(x, Obj) and x.path == 'self') and not is_res(v)
             ok = False
             if sh and sh[0] == 'eq':
@@ -1289,6 +1307,7 @@ def run(ctx):
     cpp, tr, roles = rule_cpp(ctx)
     rules = [rule_call(ctx, tr, roles), cpp, rule_cond(ctx), rule_def(ctx), rule_chelp(ctx),
              rule_I5(ctx, modules=('Code', 'ExprNodes', 'PyrexTypes', 'Nodes', 'ModuleNode'), names=lambda n: n in HELPERS, floor=5, rid='C32-I5')]
-    from ..rules import functype_copy
+    from ..rules import functype_copy, sC32
     rules.append(functype_copy.rule_copy(ctx))
+    rules.append(sC32.rule_typed(ctx))
     return rules
